@@ -230,7 +230,46 @@ func vary(t *rapid.T, groups []opGroup, target val.V) ([]opGroup, string) {
 	}
 	gi := gen.Int(t, "group", 0, len(groups)-1)
 	g := &groups[gi]
-	switch gen.Int(t, "variation", 0, 8) {
+	switch gen.Int(t, "variation", 0, 9) {
+	case 9: // every add of an insert-only hunk becomes an append
+		// Without context tests this is plainly inside the subset. With a
+		// before-context test only (the hunk sits at the end of its array in
+		// a), the test is next to the edit position on the document a, so the
+		// caller then uses a as the target.
+		if len(g.pairs) == 0 && len(g.adds) >= 1 && len(g.ctx) <= 1 {
+			ok := true
+			for _, op := range g.adds {
+				_, tok := lastToken(op["path"].(string))
+				if !isIndexToken(tok) {
+					ok = false
+				}
+			}
+			if len(g.ctx) == 1 {
+				// must be the before context: one index below the adds
+				_, ct := lastToken(g.ctx[0]["path"].(string))
+				_, at := lastToken(g.adds[0]["path"].(string))
+				ci, err1 := strconv.Atoi(ct)
+				ai, err2 := strconv.Atoi(at)
+				if err1 != nil || err2 != nil || ci != ai-1 {
+					ok = false
+				}
+			}
+			if ok {
+				// jd writes the adds of a hunk in reverse order at one index;
+				// appended one after the other they have to be in document order
+				for l, r := 0, len(g.adds)-1; l < r; l, r = l+1, r-1 {
+					g.adds[l], g.adds[r] = g.adds[r], g.adds[l]
+				}
+				for _, op := range g.adds {
+					prefix, _ := lastToken(op["path"].(string))
+					op["path"] = prefix + "/-"
+				}
+				if len(g.ctx) == 1 {
+					return groups, "append-all-with-before-context"
+				}
+				return groups, "append-all"
+			}
+		}
 	case 7: // the same hunk twice in a row (each copy is a hunk of the supported shape)
 		cp := opGroup{}
 		for _, op := range g.ctx {
@@ -430,6 +469,11 @@ func genC10(t *rapid.T) PatchCase {
 	if len(names) > 0 {
 		c.Patch, c.Unvaried = groupsJSON(groups), false
 		c.Varied = strings.Join(names, "+")
+		if strings.Contains(c.Varied, "append-all-with-before-context") {
+			// the context test is adjacent to the end of the array only on a
+			// (and only if the hunk really sits at the end there)
+			c.C, c.How = c.A, "a"
+		}
 	}
 	return c
 }
